@@ -35,6 +35,8 @@ TARGETED = [
     "else:\n  pass", "elif a:\n  pass", "if a:\n  b\nelse\n  c", "if a:\n  b\nelif\n  c", "match x:\n  case 1\n    pass", "match x:\ncase 1:\n  pass", "match x:\n  case a.b as c.d: pass", "match x:\n  case {**a, 'b': c}: pass", "match x:\n  case A(k=1, 2): pass", "match x:\n case 1 | a | b: pass\n case -a: pass",
     "return = 1", "None = 1", "True = 2", "x = yield = 1", "async x = 1", "await = 1 2", "class = 1", "global a b", "nonlocal", "assert", "raise from x", "pass pass", "break 1", "a; ; b",
     "x = 'abc' \"def", "x = b'é'", "x = '\\N{bogus}'", "x = 'a' b'b'", "x = b'\\xzz'", "x = u'\\u12'", "x = f'{a'", "x = f'{}'", "x = f'{a!z}'", "x = f'{a!}'", "x = f'{a:{b}'", "x = f'{=}'", "x = f'{a b}'", "x = f'{a!r:}}'",
+    "y = f'''{x} ab\n cd \\N{foo}'''", "z = f'''a\n\\x4'''", "w = f\"\"\"t\n\n  \\N{nope} {u}\"\"\"", "v = (f'{a}'\n     '\\N{bad}')", "u = ('a'\n 'b' b'c')", "t = '''m\nn''' '\\N{no}'",
+    "def f():\n'''doc\nstring'''\n", "if a:\n\"\"\"x\ny\"\"\"", "class A:\n'''d\nd2'''\npass", "for i in j:\n(1,\n 2)", "while a:\nf'''{b}\nc'''", "with a:\nx = [\n1]", "try:\n'''s\nt'''\nfinally: pass",
     "type X = ", "type X[T = 1", "def f[T(): pass", "class A[]: pass", "type = = 1",
     "  x = 1", "if a:\n  b\n c", "if a:\n    b\n  c\n", "def f():\n\tx\n        y\n   z", "x = 1\n  y = 2", "if a:\nb",
     "f!(a, (b]", "f!((]", "f!(a, [1,\n   2)", "g!((x,\n y]", "h!(a,\n b,\n {c)", "r = k!([\n\n 1}\n)", "$(echo @(a,\n b]))", "x = [1,\n 2)", "x = {1:\n 2]", "f(a,\n b]", "$(ls", "$[ls )", "![ls", "${a", "$(echo @(a b))", "@(a)", "x = $", "x = $ a", "with! a\n  b", "with a as $: pass", "a && = b", "a || ", "p'a' = 1", "x = `a", "echo 'a", "x??? ", "$(ls) = 1", "for $(a) in b: pass", "del $X?",
